@@ -6,9 +6,9 @@ pid=$(basename "$wt")
 cd "$wt" || exit 2
 demo=$(ls demo_* test_demo* 2>/dev/null | head -1)
 PYTHONPATH="$wt" timeout 120 /venv/bin/python "$demo" >/dev/null 2>&1; w=$?
-git stash -q -- scales
+git apply -R patch.diff
 PYTHONPATH="$wt" timeout 120 /venv/bin/python "$demo" >/dev/null 2>&1; wo=$?
-git stash pop -q
+git apply patch.diff
 t=$(PYTHONPATH="$wt" /venv/bin/python -m pytest -q -p no:cacheprovider test/scales 2>&1 | tail -1)
 echo "demo=$demo with_change_exit=$w without_exit=$wo tests: $t"
 mkdir -p "/verif/seeded/$name"
